@@ -1,5 +1,11 @@
 #define _POSIX_C_SOURCE 200809L
 #include "common.h"
+#ifdef VERIF_COVERAGE
+void __gcov_dump(void);
+#define COV_DUMP() __gcov_dump()
+#else
+#define COV_DUMP() ((void)0)
+#endif
 
 #include <stdarg.h>
 #include <stdio.h>
@@ -68,6 +74,7 @@ void h_priv_check(const void * p, int k)
 {
     if (p != (const void *)&h_cookie[k]) {
         h_stop("bad-priv");
+        COV_DUMP();
         _exit(0);
     }
 }
@@ -172,7 +179,8 @@ int h_main(const struct h_area * a)
                 alarm(20 * cpu + 60);
             }
             run_script(a, lines + i, j - i);
-            _exit(0);
+            COV_DUMP();
+        _exit(0);
         }
         if (pid < 0) {
             perror("fork");
